@@ -3,22 +3,18 @@ rig/place_and_route/allocate/greedy.py (+ allocate/utils.py, the two constraint
 classes and Machine.__getitem__) with the Lean model RigModel/Model/C05.lean, and
 the Lean specification `Valid` / `Feasible` evaluated on the implementation's own
 allocations and exceptions (property oracle)."""
+import collections
+import copy
 import glob
 import json
+import operator
 import os
-import re
-import signal
+import time
+import types
 
-
-class Hang(Exception):
-    """the implementation used more CPU time than any terminating run could"""
-
-
-def _on_vtalrm(signum, frame):
-    raise Hang()
-
-
-HANG_LIMIT_S = 5.0   # CPU seconds for ONE allocate() call on a problem with < 100 requests (normal: < 1 ms)
+HANG_LIMIT_S = 5.0    # CPU seconds for ONE allocate() call on an ordinary problem (normal: < 1 ms, i.e. > 1000x)
+HANG_LIMIT_BIG_S = 60.0   # ... on a problem of the scale stream (normal: < 0.5 s)
+_HANGS = [0]
 
 CLAIM = dict(
     text=("Machine-checked proof (Lean 4) over ALL machines (with per-chip exceptions), vertex sets, placements, "
@@ -33,12 +29,33 @@ CLAIM = dict(
           "one that is feasible by the placers' own accounting (capacity minus reserved magnitudes) - always "
           "succeeds.  Tied to greedy.py by exact correspondence (allocations, error kind, failing resource and "
           "chip) on thousands of generated problems per run - quantities from 0 to beyond 2^100 (the model is "
-          "over unbounded Int; the JSON protocol carries them exactly), identifiers of any hashable type - with "
-          "the Lean predicate `Valid` run on every allocation the implementation returns."),
+          "over unbounded Int; the JSON protocol carries them exactly), identifiers of any hashable type, every "
+          "legal Python kind of each argument, positional / keyword / re-exported entry point - as single calls, "
+          "as HISTORIES of 2-6 calls in one process (caller keeps and edits in place what it passed and what it "
+          "was handed back, keeps earlier results and looks at them again, twins in both orders, two callers "
+          "alternately, calls after failed calls) and on a handful of very large problems; the Lean predicate "
+          "`Valid` is run on every allocation the implementation returns and again on every kept allocation "
+          "that changed after it was returned."),
     design="3/C05",
-    note=("Vertex order per chip = iteration order of the `placements` dict, passed to the model as a list; theorems "
-          "hold for every order.  Domain (hypotheses of the theorems, applied to the generators): requirements >= 0, "
-          "alignments >= 1, resources known to the machine, vertices on live chips."),
+    note=("Vertex order per chip = iteration order of the `placements` mapping, passed to the model as a list; a set of "
+          "constraints is passed to the model in the order observed just before the call; theorems hold for every "
+          "order.  Domain (hypotheses of the theorems, applied to the generators): requirements >= 0, alignments "
+          ">= 1, resources known to the machine, vertices on live chips.  Hardening checklist - not applicable here: "
+          "byte-string arguments (none in this API); vertices_resources / placements as non-mappings (the code "
+          "needs .items() and [] - dict, OrderedDict, dict subclass and mappingproxy are used); `nets` is ignored "
+          "by the allocator (passed as [], () and a list of Net objects with a non-default weight; None is not a "
+          "documented value); numpy ints only below 2^40 (int64 cannot hold the huge class; numpy's `//` by an "
+          "alignment of 0 does not raise, so the malformed stream uses plain ints); optional parameters: "
+          "allocate() has none, ReserveResourceConstraint.location is given by default / positionally / by "
+          "keyword, Machine's chip_resources both defaulted and given, chip_resource_exceptions, dead_chips, "
+          "dead_links given; nothing in the allocator is counted in 8 or 16 bits and nothing is recursive (the "
+          "scale stream has > 1000 rounds of the proposal loop, thousands of chips / vertices / constraints "
+          "instead); allocate returns a dict, nothing lazy to consume; no connection / callback that could fail - "
+          "the only fault is InsufficientResourceError raised half-way, after which histories keep using the same "
+          "objects; no simulated machine - per-chip configuration = resource exceptions, which differ between chips "
+          "and between the two machines of one history.  Module-level state is reset (greedy.py and utils.py "
+          "re-executed in place) before every item, so a replay reproduces; state that a change might put into "
+          "machine.py / constraints.py classes is not reset - a history still carries all its calls."),
     technique="Lean 4 theorems over a hand-written model + differential correspondence + Lean spec as oracle")
 
 THEOREMS = ["overlaps_iff_common", "alloc_sound", "alloc_sound_range", "alloc_unique", "alloc_only_failure",
@@ -61,17 +78,45 @@ RULE = ("machines 1-3 x 1-3 with 1-3 resources, per-chip exceptions and dead chi
         "to satisfy the completeness hypothesis (no alignment, reservations at the ends, demand fits exactly or "
         "with slack) and a malformed stream (alignment 0, unknown resource, dead chip, vertex without resources, "
         "negative demand) compared with the model only; slices_overlap / align compared directly on small and "
-        "huge integers.  Non-trivial: >= 2 ranges of one resource on one chip and either a gap forced by a "
-        "reservation/alignment or an InsufficientResourceError raised with reservations present; distinct = "
-        "distinct canonical JSON")
+        "huge integers, positionally and by keyword.  ARGUMENT KINDS (every case draws one of each): quantities "
+        "as int / bool+IntEnum / int subclass / numpy.int64; mappings as dict / OrderedDict / dict subclass / "
+        "mappingproxy; constraints as list / tuple / iterator / generator / set / frozenset / dict values / "
+        "deque; chips as tuple / namedtuple; resources and vertices also as strings containing '%' and '{}', "
+        "tuples of length 0-3, namedtuples; Machine and constraint SUBCLASS instances; Machine with its default "
+        "chip_resources and with dead_links; constraints built positionally / by keyword; allocate called "
+        "positionally / by keyword / through rig.place_and_route.allocate.  HISTORIES (quick 700, thorough "
+        "20,000; greedy.py and utils.py re-executed before each item): the same call repeated; twins differing in "
+        "one demand / capacity / chip exception / alignment / reservation / vertex position / order, in both "
+        "orders, on fresh objects or by editing IN PLACE every object passed before (dicts, inner dicts, the "
+        "constraint list and the constraint objects' attributes, the Machine's dicts and sets); two callers "
+        "alternately; after 40% of the calls the caller overwrites the allocation it was handed back; every "
+        "allocation kept from an earlier call is compared with its snapshot after every later call and edit, "
+        "and Lean `Valid` decides whether a changed one is a violation (`kept-result-invalidated`) or only a "
+        "mismatch.  SCALE (quick 4, thorough 12): 1xN / Nx1 / 2xN machines with 1,500-4,000 chips; 1,200-2,500 "
+        "vertices on one chip; > 1,000 fenced unit gaps (> 1,000 rounds of the proposal loop for one request); "
+        "2,000-4,000 constraints about other chips / resources.  Every call runs under common.cpu_limit (5 s, "
+        "60 s for the scale stream; 0.5 s / 5 s after three hangs): no return on an in-domain input = "
+        "`did-not-return` (theorems propose_no_fuel, alloc_only_failure), any exception other than "
+        "InsufficientResourceError (RecursionError, TypeError, OverflowError ...) on an in-domain input = "
+        "`undocumented-exception-*`; keys of the result that are no vertex / resource of the caller are shown to "
+        "the Lean oracle as a foreign vertex / resource.  Non-trivial: >= 2 ranges of one resource on one chip and "
+        "either a gap forced by a reservation/alignment or an InsufficientResourceError raised with reservations "
+        "present; distinct = distinct canonical JSON")
 
 
 # ---------------------------------------------------------------- generators
 HUGE_BASES = [2 ** 31, 2 ** 32, 2 ** 53, 2 ** 53, 2 ** 53, 2 ** 54, 2 ** 63, 2 ** 64, 2 ** 64, 2 ** 100]
 EDGE_DEMANDS = [2 ** 53 + 1, 2 ** 53 - 1, 2 ** 53 + 3, 2 ** 54 + 2, 2 ** 31 + 1, 2 ** 32 - 1, 2 ** 63 + 1,
                 2 ** 64 - 1, 2 ** 64 + 1, 2 ** 100 + 1, 3 * 2 ** 52 + 1]
-RES_STYLES = ["int", "str", "tuple", "object", "sentinel", "frozenset", "bytes"]
-VERTEX_STYLES = ["int", "str", "tuple", "object"]
+RES_STYLES = ["int", "str", "str_fmt", "tuple", "namedtuple", "object", "sentinel", "frozenset", "bytes"]
+VERTEX_STYLES = ["int", "str", "str_fmt", "tuple", "namedtuple", "frozenset", "object"]
+CONTAINERS = ["list", "list", "list", "tuple", "iter", "genexp", "set", "frozenset", "dictvalues", "deque"]
+INT_KINDS = ["plain", "plain", "plain", "bool_enum", "subint", "numpy"]
+MAPPINGS = ["dict", "dict", "ordered", "subdict", "proxy"]
+
+ResName = collections.namedtuple("ResName", "kind index")
+VertexName = collections.namedtuple("VertexName", "index label")
+XY = collections.namedtuple("XY", "x y")
 
 
 class Named(object):
@@ -84,14 +129,47 @@ class Named(object):
         return "<%s>" % self.name
 
 
+class SubDict(dict):
+    """a user subclass of dict"""
+
+
+class SubInt(int):
+    """a user subclass of int"""
+
+
+_ENUM = []
+
+
+def quantity(n, kind):
+    """the Python number that carries quantity n: plain int, bool / IntEnum member, int subclass, numpy int"""
+    if kind == "bool_enum":
+        if n in (0, 1):
+            return bool(n)
+        if 0 <= n < 70:
+            if not _ENUM:
+                import enum
+                _ENUM.append(enum.IntEnum("Quantity", dict(("q%d" % i, i) for i in range(70))))
+            return _ENUM[0](n)
+    elif kind == "subint":
+        return SubInt(n)
+    elif kind == "numpy" and -2 ** 40 < n < 2 ** 40:
+        import numpy
+        return numpy.int64(n)
+    return n
+
+
 def res_object(style, r):
     """the Python object that names resource number r"""
     if style == "int":
         return r
     if style == "str":
         return "res%d" % r
+    if style == "str_fmt":
+        return "{} %s {0!r} %(x)d res" + str(r)
     if style == "tuple":
-        return ("res", r)
+        return tuple(["res%d" % r] * (r % 4))      # length 0-3
+    if style == "namedtuple":
+        return ResName("res", r)
     if style == "frozenset":
         return frozenset([("res", r)])
     if style == "bytes":
@@ -108,8 +186,14 @@ def vertex_object(style, v):
         return v
     if style == "str":
         return "v%d" % v
+    if style == "str_fmt":
+        return "%s {} {1} %d v" + str(v)
     if style == "tuple":
-        return ("vertex", v, None)
+        return (v, "vertex", None)[:1 + v % 3]      # length 1-3
+    if style == "namedtuple":
+        return VertexName(v, "v")
+    if style == "frozenset":
+        return frozenset([v, "v"])
     return Named("v%d" % v)
 
 
@@ -181,6 +265,13 @@ def gen_case(rng, mode):
     chip_resources = [[r, rng.choice(capset[2:] if rng.random() < 0.9 else capset)] for r in range(nres)]
     if rng.random() < 0.3:
         rng.shuffle(chip_resources)
+    machine_defaults = mode != "malformed" and rng.random() < 0.05
+    if machine_defaults:
+        # Machine(width, height) with its DEFAULT chip_resources {Cores: 18, SDRAM: 128 MiB, SRAM: 32 KiB}
+        scale, nres = "medium", 3
+        capset = [18, 2 ** 27, 2 ** 15, 17, 1, 0, 2 ** 20]
+        alignset = [1, 2, 4, 8, 3, 1000, 4096]
+        chip_resources = [[0, 18], [1, 128 * 1024 * 1024], [2, 32 * 1024]]
     all_chips = [(x, y) for x in range(w) for y in range(h)]
     dead = [c for c in all_chips if rng.random() < 0.1] if len(all_chips) > 1 else []
     live = [c for c in all_chips if c not in dead] or [all_chips[0]]
@@ -301,9 +392,19 @@ def gen_case(rng, mode):
                         "exceptions": exceptions, "dead": [list(c) for c in dead]},
             "constraints": constraints, "placements": placements, "mode": mode, "scale": scale,
             # how the identifiers are spelled on the Python side (any hashable is legal)
-            "names": {"res": [rng.choice(RES_STYLES) for _ in range(8)],
+            "names": {"res": [rng.choice(RES_STYLES) if not machine_defaults else "sentinel" for _ in range(8)],
                       "vertex": rng.choice(VERTEX_STYLES),
-                      "containers": rng.choice(["list", "list", "tuple", "iter"])}}
+                      "containers": rng.choice(CONTAINERS)},
+            # in which Python kinds the arguments are passed (all legal for the API)
+            "kinds": {"ints": rng.choice(INT_KINDS) if scale != "huge" else rng.choice(["plain", "plain", "subint"]),
+                      "mapping": rng.choice(MAPPINGS),
+                      "subclass": rng.random() < 0.3,
+                      "nets": rng.choice(["empty", "empty", "nets", "tuple"]),
+                      "call": rng.choice(["positional", "positional", "keyword", "alias"]),
+                      "xy": rng.choice(["tuple", "tuple", "namedtuple"]),
+                      "reserve_kw": rng.random() < 0.4,
+                      "machine_defaults": machine_defaults,
+                      "dead_links": rng.random() < 0.3}}
     if mode == "malformed":
         what = rng.choice(["align0", "unknown-res", "dead-chip", "missing-vr", "neg-demand", "outside"])
         case["malformed"] = what
@@ -329,110 +430,317 @@ def gen_case(rng, mode):
 
 
 # ---------------------------------------------------------------- implementation
-def impl_allocate(case, limit=None):
-    from rig.place_and_route.allocate.greedy import allocate
-    from rig.place_and_route.machine import Machine
-    from rig.place_and_route.constraints import (
-        ReserveResourceConstraint, AlignResourceConstraint, RouteEndpointConstraint)
-    from rig.place_and_route.exceptions import InsufficientResourceError
-    from rig.routing_table import Routes
-    names = case.get("names") or {"res": ["int"] * 8, "vertex": "int", "containers": "list"}
-    robj, vobj = {}, {}
+DEFAULT_NAMES = {"res": ["int"] * 8, "vertex": "int", "containers": "list"}
+DEFAULT_KINDS = {"ints": "plain", "mapping": "dict", "subclass": False, "nets": "empty", "call": "positional",
+                 "xy": "tuple", "reserve_kw": False, "machine_defaults": False, "dead_links": False}
+_CLASSES = {}
 
-    def R(r):
-        if r not in robj:
-            robj[r] = res_object(names["res"][r % len(names["res"])], r)
-        return robj[r]
 
-    def V(v):
-        if v not in vobj:
-            vobj[v] = vertex_object(names["vertex"], v)
-        return vobj[v]
-    m = case["machine"]
-    machine = Machine(m["width"], m["height"],
-                      chip_resources=dict((R(r), c) for r, c in m["chip_resources"]),
-                      chip_resource_exceptions=dict(
-                          (tuple(xy), dict((R(r), c) for r, c in rs)) for xy, rs in m["exceptions"]),
-                      dead_chips=set(tuple(c) for c in m["dead"]))
-    constraints = []
-    for c in case["constraints"]:
-        if c["k"] == "reserve":
-            constraints.append(ReserveResourceConstraint(
-                R(c["res"]), slice(c["start"], c["stop"]),
-                None if c["loc"] is None else tuple(c["loc"])))
-        elif c["k"] == "align":
-            constraints.append(AlignResourceConstraint(R(c["res"]), c["a"]))
-        else:
-            constraints.append(RouteEndpointConstraint(object(), Routes.north))
-    if names["containers"] == "tuple":
-        constraints = tuple(constraints)
-    elif names["containers"] == "iter":
-        constraints = iter(constraints)
-    vr = {}
-    for v, rs in case["vr"]:
-        vr[V(v)] = dict((R(r), d) for r, d in rs)
-    placements = {}
-    for v, xy in case["placements"]:
-        placements[V(v)] = tuple(xy)
-    rid = dict((id(o), r) for r, o in robj.items())
-    vid = dict((id(o), v) for v, o in vobj.items())
+def rig_classes():
+    """rig's classes and user SUBCLASSES of them (an API taking a Machine takes a subclass instance)"""
+    if not _CLASSES:
+        from rig.place_and_route.machine import Machine
+        from rig.place_and_route.constraints import (
+            ReserveResourceConstraint, AlignResourceConstraint, RouteEndpointConstraint)
 
-    def back(table, objs, o):
-        """number of the identifier object `o` (by identity, else by equality)"""
-        if id(o) in table:
-            return table[id(o)]
-        for k, oo in objs.items():
+        class MyMachine(Machine):
+            pass
+
+        class MyReserve(ReserveResourceConstraint):
+            pass
+
+        class MyAlign(AlignResourceConstraint):
+            pass
+        _CLASSES.update(Machine=Machine, Reserve=ReserveResourceConstraint, Align=AlignResourceConstraint,
+                        Other=RouteEndpointConstraint, MyMachine=MyMachine, MyReserve=MyReserve, MyAlign=MyAlign)
+    return _CLASSES
+
+
+_CODES = []
+
+
+def get_allocate(fresh=True):
+    """the implementation's entry point.  `fresh`: greedy.py and utils.py (the anchored files) are executed
+    again IN their module namespaces, so every item (single call or history) starts from pristine
+    module-level state and a replay of the item alone reproduces what the run saw (22 us per item)."""
+    import importlib
+    u = importlib.import_module("rig.place_and_route.allocate.utils")
+    g = importlib.import_module("rig.place_and_route.allocate.greedy")
+    if fresh:
+        if not _CODES:
+            for m in (u, g):
+                _CODES.append((m, compile(open(m.__file__).read(), m.__file__, "exec")))
+        for m, code in _CODES:
+            d = m.__dict__
+            for k in [k for k in d if not (k.startswith("__") and k.endswith("__"))]:
+                del d[k]
+            exec(code, d)
+    return g.allocate
+
+
+class Objs(object):
+    """the Python argument objects of one caller (kept between the calls of a history)"""
+
+    def __init__(self, case):
+        self.names = case.get("names") or DEFAULT_NAMES
+        self.kinds = dict(DEFAULT_KINDS, **(case.get("kinds") or {}))
+        self.robj, self.vobj = {}, {}
+        self.inner = {}         # vertex number -> the (base) dict of its resources
+        self.exc_inner = {}     # chip -> the dict of its exception entry
+        self.cons = []          # the caller's list of constraint objects
+        self.vr_base = self._newmap()
+        self.pl_base = self._newmap()
+        self.machine = None
+        self.sync(case)
+
+    # -- identifiers and numbers
+    def R(self, r):
+        if r not in self.robj:
+            self.robj[r] = res_object(self.names["res"][r % len(self.names["res"])], r)
+        return self.robj[r]
+
+    def V(self, v):
+        if v not in self.vobj:
+            self.vobj[v] = vertex_object(self.names["vertex"], v)
+        return self.vobj[v]
+
+    def Q(self, n):
+        return quantity(n, self.kinds["ints"])
+
+    def XY(self, xy):
+        return XY(*xy) if self.kinds["xy"] == "namedtuple" else tuple(xy)
+
+    def _newmap(self):
+        k = self.kinds["mapping"]
+        return collections.OrderedDict() if k == "ordered" else SubDict() if k == "subdict" else {}
+
+    def _view(self, d):
+        return types.MappingProxyType(d) if self.kinds["mapping"] == "proxy" else d
+
+    # -- make the objects describe `case`, editing IN PLACE whatever already exists
+    def sync(self, case):
+        C = rig_classes()
+        sub = self.kinds["subclass"]
+        m = case["machine"]
+        cr = [(self.R(r), self.Q(c)) for r, c in m["chip_resources"]]
+        if self.machine is None:
+            kw = {}
+            if not self.kinds["machine_defaults"]:
+                kw["chip_resources"] = dict(cr)
+            if self.kinds["dead_links"]:
+                from rig.links import Links
+                kw["dead_links"] = set([(0, 0, Links.north), (m["width"] - 1, 0, Links.east)])
+            self.machine = (C["MyMachine"] if sub else C["Machine"])(m["width"], m["height"], **kw)
+        mach = self.machine
+        mach.width, mach.height = m["width"], m["height"]
+        if not self.kinds["machine_defaults"] or dict(mach.chip_resources) != dict(cr):
+            mach.chip_resources.clear()
+            mach.chip_resources.update(cr)
+        keep = {}
+        for xy, rs in m["exceptions"]:
+            d = self.exc_inner.get(tuple(xy))
+            if d is None:
+                d = {}
+            d.clear()
+            d.update((self.R(r), self.Q(c)) for r, c in rs)
+            keep[tuple(xy)] = d
+        self.exc_inner = keep
+        mach.chip_resource_exceptions.clear()
+        mach.chip_resource_exceptions.update(keep)
+        mach.dead_chips.clear()
+        mach.dead_chips.update(tuple(c) for c in m["dead"])
+        # constraints: objects are re-used position by position, their attributes edited
+        new = []
+        for i, c in enumerate(case["constraints"]):
+            old = self.cons[i] if i < len(self.cons) else None
+            if c["k"] == "reserve":
+                loc = None if c["loc"] is None else self.XY(c["loc"])
+                sl = slice(self.Q(c["start"]), self.Q(c["stop"]))
+                if isinstance(old, C["Reserve"]):
+                    old.resource, old.reservation, old.location = self.R(c["res"]), sl, loc
+                else:
+                    cls = C["MyReserve"] if sub else C["Reserve"]
+                    if self.kinds["reserve_kw"]:
+                        old = cls(resource=self.R(c["res"]), reservation=sl, location=loc)
+                    elif loc is None:
+                        old = cls(self.R(c["res"]), sl)
+                    else:
+                        old = cls(self.R(c["res"]), sl, loc)
+            elif c["k"] == "align":
+                if isinstance(old, C["Align"]):
+                    old.resource, old.alignment = self.R(c["res"]), self.Q(c["a"])
+                elif self.kinds["reserve_kw"]:
+                    old = (C["MyAlign"] if sub else C["Align"])(resource=self.R(c["res"]), alignment=self.Q(c["a"]))
+                else:
+                    old = (C["MyAlign"] if sub else C["Align"])(self.R(c["res"]), self.Q(c["a"]))
+            elif not isinstance(old, C["Other"]):
+                from rig.routing_table import Routes
+                old = C["Other"](object(), Routes.north)
+            new.append(old)
+        self.cons[:] = new
+        # vertices_resources / placements
+        inner = {}
+        self.vr_base.clear()
+        for v, rs in case["vr"]:
+            d = self.inner.get(v)
+            if d is None:
+                d = self._newmap()
+            d.clear()
+            for r, q in rs:
+                d[self.R(r)] = self.Q(q)
+            inner[v] = d
+            self.vr_base[self.V(v)] = self._view(d)
+        self.inner = inner
+        self.pl_base.clear()
+        for v, xy in case["placements"]:
+            self.pl_base[self.V(v)] = self.XY(xy)
+
+    def constraints_arg(self):
+        """(the object passed as `constraints`, the order in which it yields the caller's constraints)"""
+        k = self.names["containers"]
+        base = self.cons
+        if k == "list":
+            return base, list(range(len(base)))
+        if k == "tuple":
+            return tuple(base), list(range(len(base)))
+        if k == "iter":
+            return iter(base), list(range(len(base)))
+        if k == "genexp":
+            return (c for c in base), list(range(len(base)))
+        if k == "deque":
+            return collections.deque(base), list(range(len(base)))
+        if k == "dictvalues":
+            return dict(enumerate(base)).values(), list(range(len(base)))
+        # set / frozenset of the constraint objects: the iteration order is whatever the set gives; it
+        # is observed here (iterating an unmodified set twice gives the same order) and handed to the model
+        st = set(base) if k == "set" else frozenset(base)
+        pos = {}
+        for i, c in enumerate(base):
+            pos.setdefault(id(c), i)
+        order = [pos[id(c)] for c in st]
+        return st, order
+
+    def nets_arg(self):
+        k = self.kinds["nets"]
+        if k == "tuple":
+            return ()
+        if k == "nets" and len(self.vobj) >= 1:
+            from rig.netlist import Net
+            vs = list(self.vobj.values())
+            return [Net(vs[0], vs[1:3]), Net(vs[-1], vs[0], 2.5)]
+        return []
+
+    def back(self, table, o):
+        for k, oo in table.items():
+            if oo is o:
+                return k
+        for k, oo in table.items():
             if type(oo) is type(o) and oo == o:
                 return k
         return None
-    old = signal.signal(signal.SIGVTALRM, _on_vtalrm)
-    signal.setitimer(signal.ITIMER_VIRTUAL, limit or HANG_LIMIT_S)
-    try:
-        try:
-            out = allocate(vr, [], machine, constraints, placements)
-        finally:
-            signal.setitimer(signal.ITIMER_VIRTUAL, 0)
-            signal.signal(signal.SIGVTALRM, old)
-    except Hang:
-        return {"err": "NoTermination"}
-    except InsufficientResourceError as e:
-        r = {"err": "InsufficientResourceError"}
-        # "{resource} over-allocated on chip {xy}": find which resource / chip it names
-        for rr, o in robj.items():
-            for _, xy in case["placements"]:
-                if str(e) == "{} over-allocated on chip {}".format(o, tuple(xy)):
-                    r["res"] = rr
-                    r["xy"] = list(xy)
-        return r
-    except (KeyError, IndexError, ZeroDivisionError) as e:
-        return {"err": type(e).__name__}
-    except Exception as e:      # anything else: reported by type
-        return {"err": "Other:" + type(e).__name__}
-    res = []
-    bad = None
+
+
+def canon_out(objs, out):
+    """canonical form of an allocation object: {"ok": [[v, [[res, start, stop], ...]], ...]} (+ "bad")"""
     if not isinstance(out, dict):
         return {"ok": None, "bad": "result is not a dict: %r" % (out,)}
+    rid = dict((id(o), r) for r, o in objs.robj.items())
+    vid = dict((id(o), v) for v, o in objs.vobj.items())
+    res, bad = [], None
     for vo, va in out.items():
-        v = back(vid, vobj, vo)
-        if v is None or not isinstance(va, dict):
-            bad = "result key %r is not one of the placed vertices / its value is not a dict" % (vo,)
+        v = vid.get(id(vo))
+        if v is None:
+            v = objs.back(objs.vobj, vo)
+        if v is None:
+            v = UNKNOWN_VERTEX      # a key that is no vertex of the caller: the Lean oracle sees a foreign vertex
+        if not isinstance(va, dict):
+            bad = "the value for vertex %r is not a dict: %r" % (vo, va)
             continue
         row = []
         for ro, sl in va.items():
-            r = back(rid, robj, ro)
+            r = rid.get(id(ro))
             if r is None:
-                bad = "vertex %r: %r is not one of the resources" % (vo, ro)
-                continue
-            if not isinstance(sl, slice) or sl.step not in (None, 1) or \
-                    not isinstance(sl.start, int) or not isinstance(sl.stop, int):
+                r = objs.back(objs.robj, ro)
+            if r is None:
+                r = UNKNOWN_RESOURCE        # likewise: a range for something that is no resource
+            try:
+                if not isinstance(sl, slice) or sl.step not in (None, 1):
+                    raise TypeError
+                row.append([r, operator.index(sl.start), operator.index(sl.stop)])
+            except TypeError:
                 bad = "vertex %r resource %r: not a contiguous integer range: %r" % (vo, ro, sl)
-                continue
-            row.append([r, int(sl.start), int(sl.stop)])
         res.append([v, sorted(row)])
     r = {"ok": sorted(res)}
     if bad:
         r["bad"] = bad
     return r
+
+
+UNKNOWN_VERTEX = 10 ** 9 + 7
+UNKNOWN_RESOURCE = 10 ** 9 + 9
+
+
+def invoke(objs, case, allocate, limit=None, big=False):
+    """ONE call of the implementation with the caller's current objects.
+    Returns (canonical result, raw result object or None, constraint order seen by the callee)."""
+    from harness import common
+    from rig.place_and_route.exceptions import InsufficientResourceError
+    cons, order = objs.constraints_arg()
+    args = [objs._view(objs.vr_base), objs.nets_arg(), objs.machine, cons, objs._view(objs.pl_base)]
+    how = objs.kinds["call"]
+    if limit is None:
+        limit = (HANG_LIMIT_BIG_S if big else HANG_LIMIT_S) if _HANGS[0] < 3 else (5.0 if big else 0.5)
+    try:
+        with common.cpu_limit(limit):
+            if how == "keyword":
+                out = allocate(vertices_resources=args[0], nets=args[1], machine=args[2],
+                               constraints=args[3], placements=args[4])
+            elif how == "alias":
+                import rig.place_and_route
+                out = rig.place_and_route.allocate(*args)
+            else:
+                out = allocate(*args)
+    except common.ImplHang as e:
+        _HANGS[0] += 1
+        return {"err": "DidNotReturn", "where": str(e), "limit": limit}, None, order
+    except InsufficientResourceError as e:
+        r = {"err": "InsufficientResourceError"}
+        # "{resource} over-allocated on chip {xy}": find which resource / chip it names
+        msg = str(e)
+        seen = set()
+        for _, xy in case["placements"]:
+            if tuple(xy) in seen:
+                continue
+            seen.add(tuple(xy))
+            for rr, o in objs.robj.items():
+                if msg == "{} over-allocated on chip {}".format(o, objs.XY(xy)):
+                    r["res"] = rr
+                    r["xy"] = list(xy)
+        return r, None, order
+    except (KeyError, IndexError, ZeroDivisionError) as e:
+        return {"err": type(e).__name__}, None, order
+    except (ImportError, SyntaxError):
+        raise
+    except Exception as e:      # anything else: reported by type
+        import traceback
+        tb = traceback.extract_tb(e.__traceback__)
+        return {"err": "Other:" + type(e).__name__,
+                "where": "%s:%s" % (tb[-1].name, tb[-1].lineno) if tb else ""}, None, order
+    return canon_out(objs, out), out, order
+
+
+def scribble(out):
+    """the caller edits, in place, the allocation it was handed back (deterministic)"""
+    if not isinstance(out, dict):
+        return
+    for i, (v, va) in enumerate(list(out.items())):
+        if isinstance(va, dict):
+            for r in list(va):
+                va[r] = slice(0, 7) if i % 2 == 0 else slice(3, 10 ** 9)
+            va["scribbled"] = slice(1, 2)
+        if i % 3 == 2:
+            del out[v]
+    out["scribbled"] = {"x": slice(0, 1)}
 
 
 def canon_model(rep):
@@ -441,8 +749,11 @@ def canon_model(rep):
     return rep
 
 
-def lean_input(case):
-    return {k: case[k] for k in ("vr", "machine", "constraints", "placements")}
+def lean_input(case, order=None):
+    d = {k: case[k] for k in ("vr", "machine", "constraints", "placements")}
+    if order is not None and order != list(range(len(d["constraints"]))):
+        d["constraints"] = [case["constraints"][i] for i in order]
+    return d
 
 
 def gaps(case, ok):
@@ -465,104 +776,210 @@ def gaps(case, ok):
     return two, gap
 
 
-def judge(ctx, cases, limit=None):
-    """Run implementation, model and the Lean oracles on every case.  Returns one
-    verdict dict per case: viol = [(key, what)], mismatch = str | None, tags, nontriv.
-    Stops early (returns fewer verdicts) after eight non-terminating calls."""
+def is_big(case):
+    return len(case["placements"]) > 300 or len(case["constraints"]) > 300
+
+
+def steps_of(item):
+    """an item of a stream is one case (a history of one fresh call) or {"history": [step, ...]};
+    step = {"case": case, "how": "fresh" | "sync" | "same" | "alt", "scribble": bool}"""
+    if "history" in item:
+        return item["history"]
+    return [{"case": item, "how": "fresh", "scribble": False}]
+
+
+def run_history(item, limit=None):
+    """run the calls of one history on the implementation.  Returns a list of records
+    {"step", "case", "impl", "order", "changed": [(index of an earlier call, its result now)]}"""
+    steps = steps_of(item)
+    hist = "history" in item
+    allocate = get_allocate()
+    sets = {}
+    kept = []       # [record index, objs, raw object, canonical snapshot]
+    recs = []
+    for i, st in enumerate(steps):
+        case = st["case"]
+        if hist:
+            case = dict(case, _in_history=True)
+        which = 1 if st["how"] == "alt" else 0
+        if st["how"] == "fresh" or which not in sets:
+            sets[which] = Objs(case)
+        elif st["how"] != "same":
+            sets[which].sync(case)      # the caller edits the objects it passed before, in place
+        objs = sets[which]
+        impl, raw, order = invoke(objs, case, allocate, limit, big=is_big(case))
+        rec = {"step": i, "case": st["case"], "impl": impl, "order": order, "changed": [], "how": st["how"],
+               "scribble": bool(st.get("scribble"))}
+        recs.append(rec)
+        if impl.get("err") == "DidNotReturn":
+            break
+
+        def recheck():
+            for k in kept:
+                if k[2] is None:
+                    continue
+                now = canon_out(k[1], k[2])
+                if now != k[3]:
+                    rec["changed"].append((k[0], now))
+                    k[2] = None         # reported once
+        recheck()       # (c) results kept from earlier calls, looked at again after this call
+        if raw is not None:
+            if st.get("scribble"):
+                scribble(raw)   # (b) the caller edits what it was handed back ...
+                recheck()       # ... which must not reach the other results it keeps
+            else:
+                kept.append([i, objs, raw, {k: v for k, v in impl.items()}])
+    return recs
+
+
+def judge_items(ctx, items, limit=None):
+    """Run implementation, model and the Lean oracles on every call of every item.  Returns, per item,
+    the list of per-call verdicts {viol: [(key, what)], mismatch, tags, nontriv, case}."""
+    runs = []
+    for it in items:
+        runs.append(run_history(it, limit))
+        if _HANGS[0] >= 8 and any(r["impl"].get("err") == "DidNotReturn" for r in runs[-1]) and len(runs) >= 3:
+            break       # every call hangs: do not burn the budget (the rest of the batch is dropped)
     reqs = []
-    hangs = 0
-    impls = []
-    for c in cases:
-        # the first non-terminating call gets the full CPU limit; once one has been seen the others are
-        # cut short (they only add tags), and after a few the batch ends: do not burn the time budget
-        impls.append(impl_allocate(c, limit if hangs == 0 else 0.5))
-        if impls[-1].get("err") == "NoTermination":
-            hangs += 1
-            if hangs >= 8:
-                break
-    cases = cases[:len(impls)]
-    for c, impl in zip(cases, impls):
-        inp = lean_input(c)
-        reqs.append(dict(inp, suite="c05", op="allocate"))
-        reqs.append(dict(inp, suite="c05", op="hyps"))
-        if impl.get("ok") is not None:
-            reqs.append(dict(inp, suite="c05", op="valid", out=impl["ok"]))
+    for recs in runs:
+        for rec in recs:
+            inp = lean_input(rec["case"], rec["order"])
+            reqs.append(dict(inp, suite="c05", op="allocate"))
+            reqs.append(dict(inp, suite="c05", op="hyps_domain" if is_big(rec["case"]) else "hyps"))
+            if rec["impl"].get("ok") is not None:
+                reqs.append(dict(inp, suite="c05", op="valid", out=rec["impl"]["ok"]))
+            for k, now in rec["changed"]:
+                if now.get("ok") is not None:
+                    reqs.append(dict(lean_input(recs[k]["case"], recs[k]["order"]), suite="c05", op="valid",
+                                     out=now["ok"]))
     reps = iter(ctx.lean(reqs))
     out = []
-    for c, impl in zip(cases, impls):
-        model = canon_model(next(reps))
-        hyps = next(reps)
-        valid = next(reps) if impl.get("ok") is not None else None
-        v = {"viol": [], "mismatch": None, "tags": [], "nontriv": False}
-        out.append(v)
-        in_dom = hyps["well_formed"] and hyps["in_domain"]
-        cmp_impl = {k: x for k, x in impl.items() if k != "bad"}
-        if cmp_impl.get("err") == "InsufficientResourceError" and "res" not in cmp_impl:
-            model_cmp = {"err": model.get("err")} if "err" in model else model
-        else:
-            model_cmp = model
-        if cmp_impl != model_cmp:
-            v["mismatch"] = "impl=%r model=%r" % (impl, model)
-        nresv = sum(1 for x in c["constraints"] if x["k"] == "reserve")
-        v["tags"] += ["mode_" + c.get("mode", "?"), "domain_" + ("in" if in_dom else "out"),
-                      "scale_" + c.get("scale", "corpus")]
-        if "names" in c:
-            v["tags"].append("vertex_named_by_" + c["names"]["vertex"])
-            v["tags"].append("constraints_as_" + c["names"]["containers"])
-        if any(x["k"] == "align" and x["a"] not in (1, 2, 4, 8) for x in c["constraints"]):
-            v["tags"].append("alignment_not_small_power_of_two")
-        if hyps["feasible"] and in_dom:
-            v["tags"].append("completeness_hypothesis_holds")
-        if "ok" in impl:
-            v["tags"].append("result_ok")
-            if impl.get("bad"):
+    for recs in runs:
+        vs = []
+        out.append(vs)
+        doms = []
+        for rec in recs:
+            c, impl = rec["case"], rec["impl"]
+            model = canon_model(next(reps))
+            hyps = next(reps)
+            valid = next(reps) if impl.get("ok") is not None else None
+            v = {"viol": [], "mismatch": None, "tags": [], "nontriv": False, "case": c}
+            vs.append(v)
+            in_dom = hyps["well_formed"] and hyps["in_domain"]
+            doms.append(in_dom)
+            cmp_impl = {k: x for k, x in impl.items() if k not in ("bad", "where", "limit")}
+            if cmp_impl.get("err") == "InsufficientResourceError" and "res" not in cmp_impl:
+                model_cmp = {"err": model.get("err")} if "err" in model else model
+            else:
+                model_cmp = model
+            if cmp_impl != model_cmp and not (impl.get("err") == "DidNotReturn" and in_dom):
+                v["mismatch"] = "impl=%r model=%r" % (impl, model)
+            nresv = sum(1 for x in c["constraints"] if x["k"] == "reserve")
+            kinds = dict(DEFAULT_KINDS, **(c.get("kinds") or {}))
+            names = c.get("names") or DEFAULT_NAMES
+            v["tags"] += ["mode_" + c.get("mode", "?"), "domain_" + ("in" if in_dom else "out"),
+                          "scale_" + c.get("scale", "corpus"),
+                          "vertex_named_by_" + names["vertex"], "constraints_as_" + names["containers"],
+                          "ints_as_" + kinds["ints"], "mappings_as_" + kinds["mapping"], "nets_" + kinds["nets"],
+                          "call_" + kinds["call"], "xy_as_" + kinds["xy"]]
+            for flag in ("subclass", "reserve_kw", "machine_defaults", "dead_links"):
+                if kinds[flag]:
+                    v["tags"].append("with_" + flag)
+            for st_ in set(names["res"][:3]):
+                v["tags"].append("resource_named_by_" + st_)
+            if rec["order"] != list(range(len(c["constraints"]))):
+                v["tags"].append("constraint_order_observed_from_set")
+            if len(recs) > 1:
+                v["tags"] += ["history_call", "history_step_" + rec["how"]]
+                if rec["scribble"]:
+                    v["tags"].append("history_result_scribbled")
+                if rec["step"] > 0 and "err" in recs[rec["step"] - 1]["impl"]:
+                    v["tags"].append("history_call_after_failed_call")
+            if any(x["k"] == "align" and x["a"] not in (1, 2, 4, 8) for x in c["constraints"]):
+                v["tags"].append("alignment_not_small_power_of_two")
+            if hyps["feasible"] and in_dom:
+                v["tags"].append("completeness_hypothesis_holds")
+            if "ok" in impl:
+                v["tags"].append("result_ok")
+                if impl.get("bad"):
+                    if in_dom:
+                        v["viol"].append(("not-a-range", impl["bad"]))
+                elif in_dom:
+                    if not valid["valid"]:
+                        failed = [k for k in ("same_keys", "served", "justified", "disjoint") if not valid[k]]
+                        v["viol"].append(("invalid-allocation-" + "+".join(failed),
+                                          "allocation violates the property (Lean `Valid` false; failed clauses "
+                                          "%s): %s" % (failed, short(impl["ok"]))))
+                    two, gap = gaps(c, impl["ok"])
+                    v["nontriv"] = two and gap
+                    if gap:
+                        v["tags"].append("forced_gap")
+                    if any(a == b for _, va in impl["ok"] for _, a, b in va):
+                        v["tags"].append("zero_size_range")
+                    if any(a > 2 ** 53 and a % 2 == 1 for _, va in impl["ok"] for _, a, b in va):
+                        v["tags"].append("range_starts_on_odd_value_above_2^53")
+            else:
+                v["tags"].append("result_" + impl["err"].split(":")[0])
                 if in_dom:
-                    v["viol"].append(("not-a-range", impl["bad"]))
-            elif in_dom:
-                if not valid["valid"]:
-                    failed = [k for k in ("same_keys", "served", "justified", "disjoint") if not valid[k]]
-                    v["viol"].append(("invalid-allocation-" + "+".join(failed),
-                                      "allocation violates the property (Lean `Valid` false; failed clauses %s): %r"
-                                      % (failed, impl["ok"])))
-                two, gap = gaps(c, impl["ok"])
-                v["nontriv"] = two and gap
-                if gap:
-                    v["tags"].append("forced_gap")
-                if any(a == b for _, va in impl["ok"] for _, a, b in va):
-                    v["tags"].append("zero_size_range")
-                if any(a > 2 ** 53 and a % 2 == 1 for _, va in impl["ok"] for _, a, b in va):
-                    v["tags"].append("range_starts_on_odd_value_above_2^53")
-        else:
-            v["tags"].append("result_" + impl["err"])
-            if in_dom:
-                if impl["err"] == "NoTermination":
-                    v["viol"].append(("no-termination",
-                                      "allocate did not return within %.1f s of CPU time on an in-domain input "
-                                      "(the model's loop provably terminates: propose_no_fuel)"
-                                      % (limit or HANG_LIMIT_S)))
-                elif impl["err"] != "InsufficientResourceError":
-                    v["viol"].append(("undocumented-exception-" + impl["err"],
-                                      "allocate raised %s on an in-domain input; the only documented failure is "
-                                      "InsufficientResourceError" % impl["err"]))
-                elif hyps["feasible"]:
-                    v["viol"].append(("completeness",
-                                      "InsufficientResourceError although there is no alignment, reservations are "
-                                      "only at the ends of the ranges and the demand fits between them (Lean "
-                                      "`Feasible` true): %r" % (impl,)))
-                v["nontriv"] = nresv > 0 and len(c["placements"]) >= 2
+                    if impl["err"] == "DidNotReturn":
+                        v["viol"].append(("did-not-return",
+                                          "allocate did not return within %.1f s of CPU time on an in-domain input "
+                                          "(%s; the model's loop provably terminates: propose_no_fuel, "
+                                          "alloc_only_failure)" % (impl.get("limit", 0), impl.get("where", ""))))
+                    elif impl["err"] != "InsufficientResourceError":
+                        v["viol"].append(("undocumented-exception-" + impl["err"],
+                                          "allocate raised %s %s on an in-domain input; the only documented failure "
+                                          "is InsufficientResourceError" % (impl["err"], impl.get("where", ""))))
+                    elif hyps["feasible"]:
+                        v["viol"].append(("completeness",
+                                          "InsufficientResourceError although there is no alignment, reservations "
+                                          "are only at the ends of the ranges and the demand fits between them "
+                                          "(Lean `Feasible` true): %r" % (impl,)))
+                    v["nontriv"] = nresv > 0 and len(c["placements"]) >= 2
+            # results the caller kept from earlier calls and found changed after this one
+            for k, now in rec["changed"]:
+                v["tags"].append("kept_result_changed")
+                ok_now = next(reps)["valid"] if now.get("ok") is not None else False
+                what = ("the allocation returned by call %d of the history is no longer what was returned after "
+                        "call %d%s: now %s" % (k, rec["step"], " and the caller's edit of that call's result"
+                                               if rec["scribble"] else "", short(now)))
+                if doms[k] and not ok_now:
+                    v["viol"].append(("kept-result-invalidated", what + " (Lean `Valid` false on it)"))
+                else:
+                    v["mismatch"] = (v["mismatch"] or "") + " kept result changed: " + what
     return out
 
 
+def short(x, n=600):
+    s = repr(x)
+    return s if len(s) <= n else s[:n] + "... (%d characters)" % len(s)
+
+
+# ---------------------------------------------------------------- shrinking
 def candidates(case):
-    """all cases obtained by deleting / simplifying one element"""
-    import copy
+    """cases obtained by deleting / simplifying one element (blocks of elements while the case is large)"""
     out = []
 
     def variant(f):
         c = copy.deepcopy(case)
         f(c)
         out.append(c)
-    for i in range(len(case["placements"])):
+    npl, ncs = len(case["placements"]), len(case["constraints"])
+    if npl > 40 or ncs > 40:
+        for n, key in ((npl, "placements"), (ncs, "constraints")):
+            size = n // 2
+            while size >= 8 and n > 40:
+                for a in range(0, n, size):
+                    def drop_block(c, a=a, size=size, key=key):
+                        gone = c[key][a:a + size]
+                        del c[key][a:a + size]
+                        if key == "placements":
+                            vs = set(v for v, _ in gone)
+                            c["vr"] = [q for q in c["vr"] if q[0] not in vs]
+                    variant(drop_block)
+                size //= 2
+        return out
+    for i in range(npl):
         v = case["placements"][i][0]
 
         def drop_vertex(c, i=i, v=v):
@@ -575,7 +992,7 @@ def candidates(case):
             variant(lambda c, i=i: c["vr"].pop(i))
         for k in range(len(q[1])):
             variant(lambda c, i=i, k=k: c["vr"][i][1].pop(k))
-    for i in range(len(case["constraints"])):
+    for i in range(ncs):
         variant(lambda c, i=i: c["constraints"].pop(i))
     for i in range(len(case["machine"]["exceptions"])):
         variant(lambda c, i=i: c["machine"]["exceptions"].pop(i))
@@ -586,12 +1003,19 @@ def candidates(case):
             if d > 1:
                 variant(lambda c, i=i, k=k, d=d: c["vr"][i][1][k].__setitem__(1, d // 2))
                 variant(lambda c, i=i, k=k, d=d: c["vr"][i][1][k].__setitem__(1, d - 1))
+    if case.get("kinds") and case["kinds"] != DEFAULT_KINDS:
+        variant(lambda c: c.__setitem__("kinds", dict(DEFAULT_KINDS)))
+    if case.get("names") and case["names"] != DEFAULT_NAMES:
+        variant(lambda c: c.__setitem__("names", copy.deepcopy(DEFAULT_NAMES)))
     return out
 
 
-def shrink(ctx, case, key, budget_s=25.0):
+def has_key(verdicts, key):
+    return any(k == key for v in verdicts for k, _ in v["viol"])
+
+
+def shrink_case(ctx, case, key, budget_s=25.0):
     """greedy delta debugging: keep deleting while the same finding key is reported"""
-    import time
     t0 = time.time()
     cur = case
     while time.time() - t0 < budget_s:
@@ -601,9 +1025,9 @@ def shrink(ctx, case, key, budget_s=25.0):
         nxt = None
         for k in range(0, len(cands), 40):
             part = cands[k:k + 40]
-            verdicts = judge(ctx, part, limit=0.5)
-            for c, v in zip(part, verdicts):
-                if any(kk == key for kk, _ in v["viol"]):
+            vs = judge_items(ctx, part, limit=5.0 if is_big(cur) else 0.5)
+            for c, v in zip(part, vs):
+                if has_key(v, key):
                     nxt = c
                     break
             if nxt is not None or time.time() - t0 > budget_s:
@@ -614,31 +1038,65 @@ def shrink(ctx, case, key, budget_s=25.0):
     return cur
 
 
-def eval_cases(ctx, cases, do_shrink=True):
-    verdicts = judge(ctx, cases)
+def shrink_item(ctx, item, key):
+    """smallest item found that still shows finding `key` (the whole history is kept when it is needed)"""
+    if "history" not in item:
+        return shrink_case(ctx, item, key)
+    steps = item["history"]
+    last = steps[-1]["case"]
+    alone = judge_items(ctx, [last], limit=2.0)[0]
+    if has_key(alone, key):
+        return shrink_case(ctx, last, key)        # the history is not needed
+    cur = steps
+    changed = True
+    t0 = time.time()
+    while changed and time.time() - t0 < 20:
+        changed = False
+        for i in range(len(cur) - 1):
+            cand = cur[:i] + cur[i + 1:]
+            if cand[0]["how"] in ("sync", "same"):
+                cand = [dict(cand[0], how="fresh")] + cand[1:]
+            if has_key(judge_items(ctx, [{"history": cand}], limit=2.0)[0], key):
+                cur, changed = cand, True
+                break
+    return dict(item, history=cur)
+
+
+def eval_items(ctx, items, do_shrink=True):
+    """judge a batch of items, record verdicts; returns the number of items judged"""
+    verdicts = judge_items(ctx, items)
     seen = set(k for k, _, _ in ctx.concrete)
-    for c, v in zip(cases, verdicts):
-        desc = dict(c)
-        ctx.traces += 1
-        ctx.tag(*v["tags"])
-        if v["mismatch"]:
-            ctx.mismatch("c05.allocate", v["mismatch"], desc)
-        for key, what in v["viol"]:
-            if key not in seen and do_shrink:
-                seen.add(key)
-                small = shrink(ctx, desc, key)
-                sv = judge(ctx, [small], limit=2.0)[0]
-                for k2, w2 in sv["viol"]:
-                    if k2 == key:
-                        small["shrunk_from_seed_case"] = True
-                        ctx.violation(key, w2, small)
-                        break
+    for it, vs in zip(items, verdicts):
+        for j, v in enumerate(vs):
+            desc = dict(v["case"]) if "history" not in it else \
+                {"history": it["history"][:j + 1], "mode": it.get("mode", "history")}
+            ctx.traces += 1
+            ctx.tag(*v["tags"])
+            if v["mismatch"]:
+                ctx.mismatch("c05.allocate", v["mismatch"], desc)
+            for key, what in v["viol"]:
+                if key not in seen and do_shrink:
+                    seen.add(key)
+                    small = shrink_item(ctx, desc, key)
+                    sv = judge_items(ctx, [small], limit=HANG_LIMIT_BIG_S if "history" not in small and is_big(small) else 2.0)[0]
+                    for k2, w2 in [kw for x in sv for kw in x["viol"]]:
+                        if k2 == key:
+                            small = dict(small, shrunk_from_seed_case=True)
+                            ctx.violation(key, w2, small)
+                            break
+                    else:
+                        ctx.violation(key, what, desc)
                 else:
                     ctx.violation(key, what, desc)
-            else:
-                ctx.violation(key, what, desc)
-        ctx.case(desc, v["nontriv"])
+            ctx.case(v["case"] if not is_big(v["case"]) else
+                     {"big_case": c_summary(v["case"])}, v["nontriv"])
     return len(verdicts)
+
+
+def c_summary(c):
+    return {"mode": c.get("mode"), "machine": [c["machine"]["width"], c["machine"]["height"]],
+            "placements": len(c["placements"]), "constraints": len(c["constraints"]),
+            "first_placements": c["placements"][:3]}
 
 
 def gen_cases(ctx, n):
@@ -647,31 +1105,254 @@ def gen_cases(ctx, n):
     for i in range(n):
         r = rng.random()
         mode = "general" if r < 0.5 else "single" if r < 0.65 else "ends" if r < 0.9 else "malformed"
-        out.append(gen_case(rng, mode))
+        c = gen_case(rng, mode)
+        if mode == "malformed":
+            c["kinds"]["ints"] = "plain"     # numpy's `//` by zero does not raise: outside the domain anyway
+        out.append(c)
     return out
 
 
+# ---------------------------------------------------------------- histories (several calls in one process)
+def twin(rng, case):
+    """a case equal to `case` in all but ONE aspect"""
+    c = copy.deepcopy(case)
+    m = c["machine"]
+    used = sorted(set(tuple(xy) for _, xy in c["placements"]))
+    live = [(x, y) for x in range(m["width"]) for y in range(m["height"]) if [x, y] not in m["dead"]]
+    nres = len(m["chip_resources"])
+    caps = [cp for _, cp in m["chip_resources"]] or [8]
+    for _ in range(8):
+        what = rng.choice(["demand", "demand", "capacity", "exception", "align", "reserve", "reserve",
+                           "move", "order", "vertex"])
+        if what == "demand":
+            qs = [q for q in c["vr"] if q[1]]
+            if qs:
+                e = rng.choice(rng.choice(qs)[1])
+                e[1] = rng.choice([0, e[1] + 1, max(0, e[1] - 1), 2 * e[1], rng.choice(caps), e[1] + rng.choice(caps)])
+                c["twin"] = "demand"
+                return c
+        elif what == "capacity" and nres:
+            e = rng.choice(m["chip_resources"])
+            e[1] = rng.choice([e[1] + 1, max(0, e[1] - 1), 2 * e[1], e[1] // 2])
+            c["twin"] = "capacity"
+            return c
+        elif what == "exception" and used and nres:
+            xy = rng.choice(used)
+            ex = [e for e in m["exceptions"] if tuple(e[0]) == xy]
+            if ex and rng.random() < 0.5:
+                m["exceptions"].remove(ex[0])
+            elif ex:
+                e = rng.choice(ex[0][1])
+                e[1] = rng.choice([e[1] + 1, max(0, e[1] - 1), 2 * e[1], 0])
+            else:
+                m["exceptions"].append([list(xy), [[r, rng.choice([cp, cp // 2, cp + 1, 0])]
+                                                   for r, cp in m["chip_resources"]]])
+            c["twin"] = "one chip's resources"
+            return c
+        elif what == "align" and nres:
+            al = [x for x in c["constraints"] if x["k"] == "align"]
+            if al and rng.random() < 0.6:
+                x = rng.choice(al)
+                if rng.random() < 0.3:
+                    c["constraints"].remove(x)
+                else:
+                    x["a"] = rng.choice([1, 2, 3, 4, 8, x["a"] + 1, 2 * x["a"]])
+            else:
+                c["constraints"].insert(rng.randint(0, len(c["constraints"])),
+                                        {"k": "align", "res": m["chip_resources"][rng.randrange(nres)][0],
+                                         "a": rng.choice([1, 2, 3, 4, 8])})
+            c["twin"] = "alignment"
+            return c
+        elif what == "reserve" and nres:
+            rs = [x for x in c["constraints"] if x["k"] == "reserve"]
+            z = rng.random()
+            if rs and z < 0.25:
+                c["constraints"].remove(rng.choice(rs))
+            elif rs and z < 0.5:
+                x = rng.choice(rs)
+                x["loc"] = None if x["loc"] is not None else list(rng.choice(used or live))
+            elif rs and z < 0.75:
+                x = rng.choice(rs)
+                x["stop"] = x["stop"] + rng.choice([-1, 1, 2])
+            else:
+                cp = rng.choice(caps)
+                a = rng.randint(0, max(0, cp))
+                c["constraints"].insert(rng.randint(0, len(c["constraints"])),
+                                        {"k": "reserve", "res": m["chip_resources"][rng.randrange(nres)][0],
+                                         "start": a, "stop": a + rng.randint(0, max(1, cp // 4)),
+                                         "loc": rng.choice([None, list(rng.choice(used or live))])})
+            c["twin"] = "reservation"
+            return c
+        elif what == "move" and c["placements"] and len(live) > 1:
+            e = rng.choice(c["placements"])
+            e[1] = list(rng.choice([xy for xy in live if list(xy) != e[1]]))
+            c["twin"] = "one vertex on another chip"
+            return c
+        elif what == "order" and len(c["placements"]) > 1:
+            if rng.random() < 0.5:
+                c["placements"].reverse()
+            else:
+                c["constraints"].reverse()
+            c["twin"] = "order"
+            return c
+        elif what == "vertex" and c["placements"]:
+            if rng.random() < 0.5:
+                v = rng.choice(c["placements"])[0]
+                c["placements"] = [e for e in c["placements"] if e[0] != v]
+                c["vr"] = [q for q in c["vr"] if q[0] != v]
+            else:
+                v = max([q[0] for q in c["vr"]] + [e[0] for e in c["placements"]]) + 1
+                c["vr"].append([v, [[r, rng.choice([0, 1, 2, cp // 3])] for r, cp in m["chip_resources"]
+                                    if rng.random() < 0.8]])
+                c["placements"].insert(rng.randint(0, len(c["placements"])), [v, list(rng.choice(used or live))])
+            c["twin"] = "one vertex more or less"
+            return c
+    c["twin"] = "none"
+    return c
+
+
+def gen_history(rng):
+    """a history of 2-6 calls in one process on the caller's kept objects"""
+    a = gen_case(rng, rng.choice(["general", "single", "ends", "ends"]))
+    if a["names"]["containers"] in ("iter", "genexp") and rng.random() < 0.5:
+        a["names"]["containers"] = "list"       # the SAME list object is then passed again and again
+    pat = rng.choice(["repeat", "twins-in-place", "twins-in-place", "twins-fresh", "alternate", "walk", "walk"])
+
+    def sc():
+        return rng.random() < 0.4
+    if pat == "repeat":
+        steps = [{"case": a, "how": "fresh", "scribble": sc()}] + \
+                [{"case": a, "how": rng.choice(["same", "sync", "fresh"]), "scribble": sc()}
+                 for _ in range(rng.randint(1, 3))]
+    elif pat == "twins-in-place":
+        b = twin(rng, a)
+        seq = [a, b, a, b] if rng.random() < 0.5 else [b, a, b]
+        steps = [{"case": c, "how": "sync" if i else "fresh", "scribble": sc()} for i, c in enumerate(seq)]
+    elif pat == "twins-fresh":
+        b = twin(rng, a)
+        seq = [a, b, a] if rng.random() < 0.5 else [b, a]
+        steps = [{"case": c, "how": "fresh", "scribble": sc()} for c in seq]
+    elif pat == "alternate":
+        # two callers with their own machines / dictionaries, used alternately
+        b = twin(rng, a) if rng.random() < 0.6 else gen_case(rng, "general")
+        a2, b2 = twin(rng, a), twin(rng, b)
+        steps = [{"case": a, "how": "fresh", "scribble": sc()}, {"case": b, "how": "alt", "scribble": sc()},
+                 {"case": a2, "how": "sync", "scribble": sc()}, {"case": b2, "how": "alt", "scribble": sc()},
+                 {"case": a, "how": "sync", "scribble": sc()}]
+        for st in steps:        # one caller = one way of spelling things
+            if st["how"] == "alt":
+                st["case"]["names"], st["case"]["kinds"] = b["names"], b["kinds"]
+            else:
+                st["case"]["names"], st["case"]["kinds"] = a["names"], a["kinds"]
+    else:
+        steps = [{"case": a, "how": "fresh", "scribble": sc()}]
+        cur = a
+        for _ in range(rng.randint(2, 5)):
+            cur = twin(rng, cur)
+            steps.append({"case": cur, "how": rng.choice(["sync", "sync", "fresh"]), "scribble": sc()})
+    return {"history": steps, "mode": "history", "pattern": pat}
+
+
+# ---------------------------------------------------------------- scale (a handful of very large problems)
+def gen_scale_case(rng, kind):
+    """kind: row | crowd | fence | clutter"""
+    names = {"res": [rng.choice(["int", "str", "object"]) for _ in range(8)], "vertex": rng.choice(["int", "tuple"]),
+             "containers": rng.choice(["list", "tuple", "iter"])}
+    kinds = dict(DEFAULT_KINDS, mapping=rng.choice(["dict", "ordered"]), call=rng.choice(["positional", "keyword"]))
+    cons, vr, pl, exc, dead = [], [], [], [], []
+    if kind == "row":
+        n = rng.randint(1500, 4000)
+        w, h = rng.choice([(1, n), (n, 1), (2, n // 2)])
+        chips = [(x, y) for x in range(w) for y in range(h)]
+        cr = [[0, 18], [1, 2 ** 27]]
+        cons = [{"k": "reserve", "res": 0, "start": 0, "stop": 1, "loc": None},
+                {"k": "align", "res": 1, "a": 4},
+                {"k": "reserve", "res": 1, "start": 0, "stop": 1000, "loc": list(rng.choice(chips))}]
+        for c in rng.sample(chips, 20):
+            exc.append([list(c), [[0, rng.choice([17, 16, 1])], [1, 2 ** 26]]])
+        dead = [list(c) for c in rng.sample(chips, 5)]
+        exc = [e for e in exc if e[0] not in dead]
+        v = 0
+        for c in chips:
+            if list(c) in dead or rng.random() < 0.1:
+                continue
+            for _ in range(1 if rng.random() < 0.9 else 3):
+                vr.append([v, [[0, rng.choice([1, 1, 2, 0])], [1, rng.choice([0, 5, 4096, 10 ** 6])]]])
+                pl.append([v, list(c)])
+                v += 1
+        rng.shuffle(pl)
+    elif kind == "crowd":
+        n = rng.randint(1200, 2500)
+        w, h = 2, 1
+        cr = [[0, 3 * n + 10]]
+        cons = [{"k": "align", "res": 0, "a": rng.choice([1, 2, 3])},
+                {"k": "reserve", "res": 0, "start": n, "stop": n + 7, "loc": None}]
+        for v in range(n):
+            vr.append([v, [[0, rng.choice([0, 1, 1, 2])]]])
+            pl.append([v, [0, 0] if rng.random() < 0.97 else [1, 0]])
+    elif kind == "fence":
+        # > 1000 unit gaps fenced by reservations: a request of 2 walks past all of them (> 1000 loop rounds)
+        k = rng.randint(1050, 1300)
+        w, h = 1, 2
+        cr = [[0, 2 * k + 60]]
+        for i in range(k):
+            cons.append({"k": "reserve", "res": 0, "start": 2 * i + 1, "stop": 2 * i + 2,
+                         "loc": None if i % 3 else [0, 0]})
+        rng.shuffle(cons)
+        cons.insert(rng.randint(0, k), {"k": "align", "res": 0, "a": 1})
+        big_one = rng.randint(3, 30)
+        for v in range(40):
+            vr.append([v, [[0, 2 if v == big_one else rng.choice([1, 1, 1, 0])]]])
+            pl.append([v, [0, 0] if v % 4 else [0, 1]])
+    else:   # clutter: thousands of constraints that concern other chips / resources
+        w, h = 3, 3
+        cr = [[0, 64], [1, 1000]]
+        for i in range(rng.randint(2000, 4000)):
+            z = rng.random()
+            if z < 0.5:
+                cons.append({"k": "reserve", "res": 5, "start": i, "stop": i + 3, "loc": None})
+            elif z < 0.8:
+                cons.append({"k": "reserve", "res": 0, "start": 0, "stop": 60, "loc": [2, 2]})
+            elif z < 0.9:
+                cons.append({"k": "align", "res": 6, "a": 1 + i % 7})
+            else:
+                cons.append({"k": "other"})
+        cons.insert(len(cons) // 2, {"k": "reserve", "res": 0, "start": 0, "stop": 3, "loc": None})
+        cons.append({"k": "align", "res": 1, "a": 8})
+        for v in range(30):
+            vr.append([v, [[0, 1], [1, rng.choice([1, 7, 8, 9])]]])
+            pl.append([v, [v % 2, v % 3 % 2]])
+    return {"vr": vr, "machine": {"width": w, "height": h, "chip_resources": cr, "exceptions": exc, "dead": dead},
+            "constraints": cons, "placements": pl, "mode": "scale-" + kind, "scale": "small",
+            "names": names, "kinds": kinds}
+
+
 def utils_cases(ctx, n):
-    """slices_overlap / align against the model on edge-heavy integers"""
+    """slices_overlap / align against the model on edge-heavy integers (small and huge; plain ints, bools,
+    IntEnum members, int subclasses, numpy ints; positional and keyword calls)"""
     from rig.place_and_route.allocate.utils import slices_overlap, align
     rng = ctx.rng
     reqs, want = [], []
     for _ in range(n):
         a0, b0 = rng.randint(-3, 12), rng.randint(-3, 12)
         a1, b1 = a0 + rng.randint(-2, 6), b0 + rng.randint(-2, 6)
-        reqs.append({"suite": "c05", "op": "overlap", "a0": a0, "a1": a1, "b0": b0, "b1": b1})
-        want.append(bool(slices_overlap(slice(a0, a1), slice(b0, b1))))
         v, al = rng.randint(-5, 70), rng.choice([1, 2, 3, 4, 8, 5, 16, -2, -3])
+        kind = rng.choice(INT_KINDS)
         if rng.random() < 0.5:
+            kind = rng.choice(["plain", "subint"])
             b = rng.choice(HUGE_BASES)
             v = rng.choice([b, 2 * b, 3 * b, b * b]) + rng.randint(-9, 9)
             al = rng.choice([1, 2, 3, 7, 10, 2 ** 31 + 1, 2 ** 53 + 1, b + 1, b - 1, 4 * b + 3])
             a0, b0 = a0 + rng.choice([0, b, 2 * b + 1]), b0 + rng.choice([0, b, 2 * b + 1])
             a1, b1 = a0 + rng.choice([-1, 0, 1, b, b + 1]), b0 + rng.choice([-1, 0, 1, b, b + 1])
-            reqs[-1] = {"suite": "c05", "op": "overlap", "a0": a0, "a1": a1, "b0": b0, "b1": b1}
-            want[-1] = bool(slices_overlap(slice(a0, a1), slice(b0, b1)))
+        q = lambda x: quantity(x, kind)      # noqa: E731
+        sa, sb = slice(q(a0), q(a1)), slice(q(b0), q(b1))
+        kw = rng.random() < 0.3
+        reqs.append({"suite": "c05", "op": "overlap", "a0": a0, "a1": a1, "b0": b0, "b1": b1})
+        want.append(bool(slices_overlap(slice_a=sa, slice_b=sb) if kw else slices_overlap(sa, sb)))
         reqs.append({"suite": "c05", "op": "align", "v": v, "a": al})
-        want.append(align(v, al))
+        want.append(operator.index(align(value=q(v), alignment=q(al)) if kw else align(q(v), q(al))))
+        ctx.tag("utils_ints_as_" + kind)
     for rq, w, g in zip(reqs, want, ctx.lean(reqs)):
         ctx.traces += 1
         if w != g:
@@ -683,27 +1364,43 @@ def run(ctx):
     ctx.extra["rule"] = RULE
     ctx.assumptions += [
         "dict iteration order is insertion order (CPython >= 3.7): the per-chip vertex order is the order of `placements`",
+        "a set of constraint objects is iterated by the implementation in the order the harness observes just before the call",
         "claimed for requirements >= 0, alignments >= 1, resource names known to the machine, vertices placed on live chips",
-        "ranges are compared as (start, stop) of the returned slice objects"]
+        "ranges are compared as (start, stop) of the returned slice objects (operator.index of both)"]
+    _HANGS[0] = 0
     n = ctx.scale(5000, 200000)
+    nh = ctx.scale(700, 20000)
     if ctx.extended:
-        n = max(n * 4, 40000)
+        n, nh = max(n * 4, 40000), max(nh * 4, 4000)
     corpus = []
     here = os.path.dirname(os.path.dirname(os.path.abspath(__file__)))
     for f in sorted(glob.glob(os.path.join(here, "corpus", "C05", "*.json"))):
         corpus.append(json.load(open(f))["case"])
     if corpus:
-        eval_cases(ctx, corpus)
+        eval_items(ctx, corpus)
     utils_cases(ctx, ctx.scale(500, 5000))
     done = 0
-    while done < n:
+    while done < n:         # single calls
         k = min(5000, n - done)
-        eval_cases(ctx, gen_cases(ctx, k))
+        eval_items(ctx, gen_cases(ctx, k))
         done += k
         if ctx.concrete:
             break
+    done = 0
+    while done < nh:        # histories: several calls in one process, objects kept and edited by the caller
+        k = min(1000, nh - done)
+        items = [gen_history(ctx.rng) for _ in range(k)]
+        for it in items:
+            ctx.tag("history_" + it["pattern"])
+        eval_items(ctx, items)
+        done += k
+        if ctx.concrete:
+            break
+    kinds = ["row", "crowd", "fence", "clutter"]
+    for i in range(ctx.scale(4, 12)):       # scale: a handful of very large problems
+        eval_items(ctx, [gen_scale_case(ctx.rng, kinds[i % 4])])
 
 
 def replay(ctx, payload):
     ctx.extra["rule"] = RULE
-    eval_cases(ctx, [payload["case"]], do_shrink=False)
+    eval_items(ctx, [payload["case"]], do_shrink=False)
